@@ -97,7 +97,7 @@ fn gb_four(p: u32) -> [u8; 4] {
 }
 
 /// The families of one encoding, as a list of streams produced lazily into `f`.
-fn families(e: &Enc, tier: Tier, f: &mut dyn FnMut(&[u8], Option<usize>)) {
+pub fn families(e: &Enc, tier: Tier, f: &mut dyn FnMut(&[u8], Option<usize>)) {
     let q = tier == Tier::Quick;
     // (a) all 1- and 2-byte strings; two-byte ones also with the cut between the bytes
     for b in 0..=255u8 {
